@@ -398,6 +398,11 @@ impl Session {
                 out.insert("stdout".into(), json!(String::from_utf8_lossy(&self.out.lock().unwrap()).to_string()));
                 Value::Object(out)
             }
+            "c15_sweep" => {
+                let mut v = crate::c15w::sweep(self);
+                v["ok"] = json!(true);
+                v
+            }
             "drop" => {
                 let pid = self.pid();
                 self.dbg = None;
